@@ -1,10 +1,12 @@
 """C07 Decode -> encode -> decode is a fixpoint over all machine words (also feeds C01's source (c))."""
-import os, re
+import json, os, re
 from nvlib import (Worker, WorkerCrash, WorkerTimeout, Stats, Violation, shard_seed, load_known)
 
 PROP = "C07"
 RULE = ("enumeration inside the harness: for each of the 68 CPUs the leading 16-bit patterns (quick: every 8th, "
-        "thorough: all 65,536) x 1 (quick) / 3 (thorough) tails are disassembled at address 0x100; every rendering "
+        "thorough: all 65,536) x 1 (quick) / 3 (thorough) tails (zeros, ones, keyed) are disassembled at address 0x100; "
+        "for the CPUs with 32-bit instruction words additionally every 61st (quick) / 13th (thorough) leading half "
+        "word x 37 structured second half words (each single bit, each adjacent bit pair, 6 masks); every rendering "
         "that is not an 'unknown' one is fed to the real assembler (in-process, sanitized, forked per chunk) at the "
         "same address; if it is accepted the produced bytes followed by the original tail are disassembled again and "
         "the two renderings must be equal after normalisation (case, white space, numeric literals compared by value, "
@@ -74,17 +76,29 @@ class Known:
         return self.by.get((cpu, kind, mn, sig)) or self.by.get((cpu, kind, mn, "*")) or self.by.get((cpu, kind, "*", "*"))
 
 
-def scan(w, s, name, tier, kinds_wanted, known, prop, survey):
+def scan(w, s, name, tier, kinds_wanted, known, prop, survey, align=0):
     """runs c07scan for one cpu; returns list of violation payloads for `prop`"""
     step = 8 if tier == "quick" else 1
     tails = 1 if tier == "quick" else 3
     errpos = os.path.getsize(w.errpath) if os.path.exists(w.errpath) else 0
-    try:
-        r = w.call({"cmd": "c07scan", "cpu": name, "lo": "0", "hi": "65535", "step": str(step), "tails": str(tails),
-                    "addr": "256"})
-    except (WorkerCrash, WorkerTimeout) as e:
-        s.notes.append("HARNESS-ERROR c07scan for %s did not complete: %s" % (name, type(e).__name__))
-        return []
+    passes = [dict(step=str(step), tails=str(tails), stails="0", lo="0")]
+    if align == 4:
+        # 32-bit instruction words: structured second half words (single bits, adjacent bit pairs, masks) on a
+        # stride that is coprime to every field width
+        passes.append(dict(step="61" if tier == "quick" else "13", tails="0", stails="37", lo=str(7 if tier == "quick" else 3)))
+    anomalies = b""
+    tot = dict(evals=0, accepted=0, closed=0, unknown=0, stripped=0)
+    for ps in passes:
+        try:
+            r = w.call({"cmd": "c07scan", "cpu": name, "lo": ps["lo"], "hi": "65535", "step": ps["step"], "tails": ps["tails"],
+                        "stails": ps["stails"], "addr": "256"})
+        except (WorkerCrash, WorkerTimeout) as e:
+            s.notes.append("HARNESS-ERROR c07scan for %s did not complete: %s" % (name, type(e).__name__))
+            return []
+        anomalies += r["anomalies"]
+        for k in tot:
+            tot[k] += int(r[k])
+    r = dict(tot, anomalies=anomalies)
     s.evaluations += int(r["evals"])
     s.count("decoded.%s" % name, int(r["evals"]))
     s.count("accepted.%s" % name, int(r["accepted"]))
@@ -132,7 +146,7 @@ def scan(w, s, name, tier, kinds_wanted, known, prop, survey):
         if kind not in kinds_wanted:
             continue
         if survey:
-            s.notes.append("SURVEY\t%s\t%s\t%s\t%d\t%s" % (name, kind, mn, len(lst), str(lst[0])[:260]))
+            s.notes.append("SURVEY\t%s\t%s\t%s\t%d\t%s" % (name, kind, mn, len(lst), json.dumps(dict(lst[0], mode="scan"))))
             continue
         fid = known.match(name, kind, mn.split("/")[0], mn.split("/")[1] if "/" in mn else "*")
         if fid:
@@ -162,7 +176,7 @@ def run(tier, seed, shard, nshards):
         cpus = w.cpus()
         mine = [c for i, c in enumerate(cpus) if i % nshards == shard]
         for c in mine:
-            for v in scan(w, s, c["name"], tier, ("c07_mismatch", "asm_crash", "asm_hang"), known, PROP, survey):
+            for v in scan(w, s, c["name"], tier, ("c07_mismatch", "asm_crash", "asm_hang"), known, PROP, survey, c["align"]):
                 s.violations.append(v)
     finally:
         w.close()
@@ -180,7 +194,7 @@ def replay(payload):
     try:
         p = payload["pattern"]
         r = w.call({"cmd": "c07scan", "cpu": payload["cpu"], "lo": str(p), "hi": str(p), "step": "1", "tails": "3",
-                    "addr": "256"})
+                    "stails": "37", "addr": "256"})
         for line in r["anomalies"].decode("latin-1").split("\n"):
             f = line.split("\t")
             if f[0] == payload["kind"] or (payload["kind"].startswith("asm_") and f[0] == payload["kind"][4:]):
